@@ -44,8 +44,8 @@ template <typename T> static void op_ycocgr_int(const Case& c, Outcome& o) {
   const T r = (T)(U)c.w[0], g = (T)(U)c.w[1], b = (T)(U)c.w[2];
   o.cls(c.w[0] < c.w[2] ? 0 : c.w[0] == c.w[2] ? 1 : 2);
   const V in(r, g, b); const V y = glm::rgb2YCoCgR(in); const V back = glm::YCoCgR2rgb(y);
-  o.res(((uint64_t)(U)back.r << 32) | (uint64_t)(uint32_t)(U)back.g, (uint64_t)(U)back.b); o.exp(((uint64_t)(U)r << 32) | (uint64_t)(uint32_t)(U)g, (uint64_t)(U)b);
-  if (!(back.r == r && back.g == g && back.b == b)) { o.bad(back.r != r ? 1 : back.g != g ? 2 : 3, "YCoCgR2rgb(rgb2YCoCgR(c)) != c: the integer lifting pair is not lossless"); return; }
+  o.res(((uint64_t)(U)back.x << 32) | (uint64_t)(uint32_t)(U)back.y, (uint64_t)(U)back.z); o.exp(((uint64_t)(U)r << 32) | (uint64_t)(uint32_t)(U)g, (uint64_t)(U)b);
+  if (!(back.x == r && back.y == g && back.z == b)) { o.bad(back.x != r ? 1 : back.y != g ? 2 : 3, "YCoCgR2rgb(rgb2YCoCgR(c)) != c: the integer lifting pair is not lossless"); return; }
 }
 
 // ============================================================================================================== sRGB
@@ -65,8 +65,8 @@ template <typename F> static inline F alpha_tag(uint64_t key) {
 }
 
 // words: x, xn (two neighbouring points of the grid, x <= xn, both in [0,1]) [, gamma as double bits]
-template <int L, typename F, bool EXPL> static void op_srgb(const Case& c, Outcome& o) {
-  typedef typename FT<F>::W W; typedef glm::vec<L, F, glm::defaultp> V;
+template <int L, typename F, bool EXPL, glm::qualifier Q = glm::defaultp> static void op_srgb(const Case& c, Outcome& o) {
+  typedef typename FT<F>::W W; typedef glm::vec<L, F, Q> V;
   const F x = FT<F>::get(c.w[0]), xn = FT<F>::get(c.w[1]); const F gamma = EXPL ? (F)f64(c.w[2]) : (F)2.4;
   if (!(x >= 0 && xn >= x && xn <= 1) || !(gamma >= 1 && gamma <= 3)) { o.nontrivial = false; return; }
   o.cls(x < (F)0.0031308 ? 0 : x <= (F)0.04045 ? 1 : 2);
@@ -148,7 +148,7 @@ template <typename F> static void op_rgb_of_hsv(const Case& c, Outcome& o) {
   const F h = FT<F>::get(c.w[0]), s = FT<F>::get(c.w[1]), v = FT<F>::get(c.w[2]);
   if (!(h >= 0 && h < 360 && s >= 0 && s <= 1 && v >= 0 && v <= 1)) { o.nontrivial = false; return; }
   const bool achrom = s == 0 || v == 0; o.cls(achrom ? 0 : 1 + std::min(5, (int)((W)h / 60)));
-  const V rgb = glm::rgbColor(V(h, s, v)); o.res(FT<F>::bits(rgb.r), FT<F>::bits(rgb.g)); char m[160];
+  const V rgb = glm::rgbColor(V(h, s, v)); o.res(FT<F>::bits(rgb.x), FT<F>::bits(rgb.y)); char m[160];
   for (int k = 0; k < 3; ++k) if (!(rgb[k] >= 0 && rgb[k] <= 1)) { o.res(FT<F>::bits(rgb[k]), (uint64_t)k); o.bad(1, "rgbColor: channel outside [0,1] for s,v in [0,1]"); return; }
   const V back = glm::hsvColor(rgb);
   if (!(back.y >= 0 && back.y <= 1) || !(back.z >= 0 && back.z <= 1)) { o.res(FT<F>::bits(back.y), FT<F>::bits(back.z)); o.bad(2, "hsvColor(rgbColor(hsv)): saturation/value outside [0,1]"); return; }
@@ -158,10 +158,10 @@ template <typename F> static void op_rgb_of_hsv(const Case& c, Outcome& o) {
   MEAS(9, "hsv |s'-s| [u]", std::fabs((W)back.y - (W)s) / u);
   if (!(std::fabs((W)back.y - (W)s) <= 32 * u)) { o.res(FT<F>::bits(back.y)); o.exp(FT<F>::bits(s)); o.bad(4, "hsvColor(rgbColor(hsv)): saturation not restored"); return; }
   if (s == 0) return;
-  const bool nongrey = !(rgb.r == rgb.g && rgb.g == rgb.b);
+  const bool nongrey = !(rgb.x == rgb.y && rgb.y == rgb.z);
   if (nongrey && !(back.x >= 0 && back.x < 360)) {
-    const F mx = std::max(rgb.r, std::max(rgb.g, rgb.b)), mn = std::min(rgb.r, std::min(rgb.g, rgb.b));
-    if (back.x == 360 && rgb.g < rgb.b && (W)mx - (W)rgb.r <= (W)std::numeric_limits<F>::epsilon() && (W)60 * ((W)rgb.b - (W)rgb.g) / ((W)mx - (W)mn) <= std::ldexp((W)1, 8 - FT<F>::MANT) * (1 + 8 * u)) o.kf = KF_HUE360;
+    const F mx = std::max(rgb.x, std::max(rgb.y, rgb.z)), mn = std::min(rgb.x, std::min(rgb.y, rgb.z));
+    if (back.x == 360 && rgb.y < rgb.z && (W)mx - (W)rgb.x <= (W)std::numeric_limits<F>::epsilon() && (W)60 * ((W)rgb.z - (W)rgb.y) / ((W)mx - (W)mn) <= std::ldexp((W)1, 8 - FT<F>::MANT) * (1 + 8 * u)) o.kf = KF_HUE360;
     std::snprintf(m, sizeof m, "hsvColor(rgbColor(%.9g,%.9g,%.9g)): hue %.9g outside [0,360)", (double)h, (double)s, (double)v, (double)back.x);
     o.res(FT<F>::bits(back.x)); o.exp(FT<F>::bits(h)); o.bad(5, m); return; }
   // hue, compared on the circle.  The channels carry <= ~8u*v of error, the hue formula divides their differences by delta = s*v
@@ -182,7 +182,7 @@ template <typename F> static void op_ycocg_float(const Case& c, Outcome& o) {
   // the inverse 2 more: <= ~6u absolute a priori; 16u allowed
   const W TOL = 16 * u;
   const V y = glm::rgb2YCoCg(in), back = glm::YCoCg2rgb(y), y2 = glm::rgb2YCoCg(back);
-  o.res(FT<F>::bits(back.r), FT<F>::bits(back.g));
+  o.res(FT<F>::bits(back.x), FT<F>::bits(back.y));
   for (int k = 0; k < 3; ++k) { const W e = std::fabs((W)back[k] - (W)in[k]); MEAS(12, "YCoCg |back-c| [u]", e / u);
     if (!(e <= TOL)) { std::snprintf(m, sizeof m, "YCoCg2rgb(rgb2YCoCg(%.9g,%.9g,%.9g)) channel %d = %.9g", (double)r, (double)g, (double)b, k, (double)back[k]); o.res(FT<F>::bits(back[k]), (uint64_t)k); o.exp(FT<F>::bits(in[k])); o.bad(1, m); return; } }
   for (int k = 0; k < 3; ++k) { const W e = std::fabs((W)y2[k] - (W)y[k]);
@@ -265,6 +265,11 @@ template <int L, typename F> static void reg_srgb(Engine& E, const char* tn, con
   { Op& op = E.add("convertLinearToSRGB/convertSRGBToLinear " + t + " default gamma", op_srgb<L, F, false>); op.quick = {pq}; op.thorough = {pt}; op.classes = cl;
     if (allfloats) op.thorough.push_back(func("every pair of consecutive floats in [0,1]", 0x3f800000ull, 2, all_float_pairs, true)); }
   { Op& op = E.add("convertLinearToSRGB/convertSRGBToLinear " + t + " explicit gamma", op_srgb<L, F, true>); op.quick = {product(pq.name + " x " + gq.name, {pq, gq})}; op.thorough = {product(pt.name + " x " + gt.name, {pt, gt})}; op.classes = cl; }
+  // the other qualifiers run the same generic code and owe the same results; the one deliberate approximation, convertLinearToSRGB(vec<3, float, lowp>) with the
+  // default gamma (Ian Taylor's sqrt fit), is not held to the curve and is left out
+  { Op& op = E.add("convertLinearToSRGB/convertSRGBToLinear " + t + " mediump, default gamma", op_srgb<L, F, false, glm::mediump>); op.quick = {pq}; op.classes = cl; }
+  if (!(L == 3 && sizeof(F) == 4)) { Op& op = E.add("convertLinearToSRGB/convertSRGBToLinear " + t + " lowp, default gamma", op_srgb<L, F, false, glm::lowp>); op.quick = {pq}; op.classes = cl; }
+  { Op& op = E.add("convertLinearToSRGB/convertSRGBToLinear " + t + " lowp, explicit gamma", op_srgb<L, F, true, glm::lowp>); op.quick = {product(pq.name + " x " + gq.name, {pq, gq})}; op.classes = cl; }
 }
 template <typename F> static void reg_float(Engine& E, const char* tn, bool allfloats) {
   const std::string t = tn;
